@@ -163,122 +163,153 @@ def _guards_of(body, pred, conds=()):
 
 
 def rule_list_helpers(cx, rid):
-    """Python list semantics of the generated helpers, clause by clause, on the clang AST of the helper templates"""
+    """Python list semantics of the generated helpers decided by evaluation (C semantics) of the clang AST of the helper
+    templates on every list of up to four elements over two values"""
     from . import c09
     em = mod("transpile/emitter.py")
     fns, _snip, names = c09.list_helpers(em)
     where = (em.rel, em.const("LIST_HELPER_SNIPPET").lineno)
-    r = cx.rule(rid, "the list helpers have Python's list semantics: append copies every element in place and adds one at the end; remove deletes the first equal element only (elements are dropped by position, never by value) and shrinks by one; indexing maps a negative index to index+len; len is the element count", floor=9)
+    r = cx.rule(rid, "the list helpers have Python's list semantics on every list of up to four elements: append adds one element at the end and keeps the others; remove deletes the first equal element only; assign copies; indexing maps a negative index to index+len; a comprehension over range() visits range(start, stop, step) in order; len is the element count (helpers evaluated with C semantics on the clang tree)", floor=1000, exhaustive=True)
+    for need in ("__redu_list_remove", "__redu_list_append", "__redu_list_get", "__redu_list_from_range", "__redu_len", "__redu_list_assign"):
+        if not fns.get(need):
+            raise AnalysisError(f"list helper {need} not found")
+    n, bad = c09.eval_list_helpers(fns)
+    r.ok("helpers evaluated on all lists of <= 4 elements", n=n - len(bad))
+    seen = set()
+    for key, msg in bad:
+        if key in seen:
+            r.stat.obligations += 1
+            r.stat.failed += 1
+            continue
+        seen.add(key)
+        r.fail(key, where, msg)
 
-    def generic(name):
-        fl = [f for f in fns.get(name, []) if any("T" in (t or "").replace("__redu_list<T>", "T") for _n, t in f.get("params", []))]
-        if not fl:
-            raise AnalysisError(f"list helper {name} not found")
-        return fl
 
-    uses = lambda e, var: any(s_[0] == "var" and s_[1] == var for s_ in cxx.sub_exprs(e))
-    is_buf_store = lambda st: st["k"] == "expr" and st["e"][0] == "assign" and st["e"][2][0] == "index" and st["e"][2][1][0] == "var"
-    size_changes = lambda body: [show(st["e"]) for st in all_stmts(body) if st["k"] == "expr" and st["e"][0] in ("pre", "post", "assign") and show(st["e"][2]) == "list.size"]
+from .c03 import Reads as _Reads
 
-    # remove ------------------------------------------------------------------------------------
-    for f in generic("__redu_list_remove"):
-        body = f["body"]
-        loops = [st for st in all_stmts(body) if st["k"] in ("for", "while")]
-        copy_stores = [(st, g) for st, g in _guards_of(body, is_buf_store) if any(s_[0] == "member" and s_[2] == "data" for s_ in cxx.sub_exprs(st["e"][3]))]
-        if not copy_stores:
-            raise AnalysisError("__redu_list_remove: no element copy into a new buffer found (helper rewritten: re-confirm its semantics)")
-        for st, g in copy_stores:
-            by_value = [show(c) for c, _t in g if uses(c, "value")]
-            r.check(not by_value, "remove/elements-dropped-by-position", where, f"`{show(st['e'])}` is guarded by {by_value}: whether an element survives depends on its value, so every equal element is deleted, not only the first (Python's list.remove deletes one)")
-        # first match: the statement recording the found position is followed by a break / return in the same block
-        rec = []
-        for lp in loops:
-            for st, g in _guards_of(lp["body"], lambda s_: s_["k"] == "expr" and s_["e"][0] == "assign" and s_["e"][2][0] == "var" and s_["e"][3] == ("var", (lp.get("init") or [{}])[0].get("name")), ()):
-                if any(uses(c, "value") for c, _t in g):
-                    rec.append((lp, st))
-        if not rec:
-            raise AnalysisError("__redu_list_remove: the search for the element's position was not recognised")
-        for lp, st in rec:
-            blk = [b for b in all_stmts(lp["body"]) if b["k"] == "if" and any(x is st for x in b["then"])]
-            ok = bool(blk) and blk[0]["then"][-1]["k"] in ("break", "return")
-            r.check(ok, "remove/search-stops-at-first-match", where, f"after `{show(st['e'])}` the search continues: the position recorded is the last match, Python removes the first")
-        sc = size_changes(body)
-        r.check(sc in (["--list.size"], ["list.size--"], ["list.size -= 1"]), "remove/shrinks-by-one", where, f"size updates in remove: {sc}")
 
-    # append ------------------------------------------------------------------------------------
-    for f in generic("__redu_list_append"):
-        body = f["body"]
-        stores = _guards_of(body, is_buf_store)
-        copies = [(st, g) for st, g in stores if any(s_[0] == "member" and s_[2] == "data" for s_ in cxx.sub_exprs(st["e"][3]))]
-        tails = [(st, g) for st, g in stores if st["e"][3] == ("var", "value")]
-        okc = len(copies) == 1 and show(copies[0][0]["e"][2][2]) == show(copies[0][0]["e"][3][2]) and all(not uses(c, "value") for c, _t in copies[0][1])
-        r.check(okc, "append/copies-every-element-in-place", where, f"element copy in append: {[show(st['e']) for st, _g in copies]}")
-        okt = len(tails) == 1 and show(tails[0][0]["e"][2][2]) == "list.size" and not tails[0][1]
-        r.check(okt, "append/new-element-at-the-end", where, f"the appended value is stored by {[show(st['e']) for st, _g in tails]} (must be index list.size, unconditionally)")
-        sc = size_changes(body)
-        r.check(sc in (["++list.size"], ["list.size++"], ["list.size += 1"]), "append/grows-by-one", where, f"size updates in append: {sc}")
+class _Ret(Exception):
+    pass
 
-    # get: evaluated (C semantics) for every list size 1..4 and every valid index, positive and negative
-    from . import c09 as _c09
-    gv = generic("__redu_list_get")
-    why_get = _c09.eval_list_get(gv) if gv else "getter not found"
-    r.check(why_get is None, "get/negative-index-counts-from-the-end", where, f"indexing: {why_get}")
-    # comprehension over range(): the helper visits exactly the values of Python's range(start, stop, step), in order, and
-    # reports that many elements (abstract interpreter with exact unrolling on a grid of concrete arguments)
-    import itertools
-    from ..cabs import Exec, State
-    from ..num import Iv
-    fr = [f for f in fns.get("__redu_list_from_range", []) if any(t == "Func" for _n, t in f.get("params", []))]
-    if not fr:
-        raise AnalysisError("__redu_list_from_range not found")
-    n_bad = 0
-    for start, stop, step in itertools.product((0, 1, 7, -2, 10), (0, 5, -3, 7, 2), (1, 2, 3, -1, -2, -3)):
-        seen = []
 
-        def on_call(e, st, _seen=seen):
-            if e[0] == "call" and e[2] and (cxx.callee(e) == "func" or (cxx.callee(e) == "operator()" and cxx.show(e[2][0]) == "func")):
-                iv = ex.ev(e[2][-1], st)
-                _seen.append(iv.lo if iv.lo == iv.hi else None)
+class _Scope(dict):
+    """locals of one IR function call: reads fall through to the globals, stores go where the name lives"""
+    def __init__(self, glob, init):
+        super().__init__(init)
+        self.glob = glob
 
-        ex = Exec(on_call=on_call)
-        ex.unroll = 32
-        st0 = State()
-        for k_, v_ in (("start", start), ("stop", stop), ("step", step)):
-            st0.v[k_] = Iv(v_, v_)
-        outs = ex.run(fr[-1]["body"], [st0])
-        want = list(range(start, stop, step))
-        sizes = {(s_.v.get("result.size").lo, s_.v.get("result.size").hi) for s_ in outs["ret"] + outs["fall"] if s_.v.get("result.size") is not None}
-        good = [int(x) if x is not None else None for x in seen] == want and sizes == {(len(want), len(want))}
-        if good:
-            r.ok(None)
+    def __missing__(self, k):
+        return self.glob[k]
+
+    def __contains__(self, k):
+        return dict.__contains__(self, k) or k in self.glob
+
+    def store(self, k, v, declare):
+        if declare or dict.__contains__(self, k) or k not in self.glob:
+            dict.__setitem__(self, k, v)
         else:
-            n_bad += 1
-            if n_bad <= 3:
-                r.fail("from_range/elements=range(start,stop,step)", where, f"__redu_list_from_range({start}, {stop}, {step}) visits {seen} and reports size {sorted(sizes)}; Python's range gives {want}", detail={"start": start, "stop": stop, "step": step})
-            else:
-                r.stat.obligations += 1
-                r.stat.failed += 1
-    lens = [f for f in fns.get("__redu_len", []) if any("__redu_list<T>" in (t or "") for _n, t in f.get("params", []))]
-    r.check(len(lens) == 1 and len(lens[0]["body"]) == 1 and lens[0]["body"][0]["k"] == "return" and show(lens[0]["body"][0]["e"]) == "value.size", "len/list-size", where, "len(list) must be the element count")
-    return r
+            self.glob[k] = v
+
+
+def _exec_ir(nodes, env, budget):
+    from . import c03
+    for n in nodes:
+        cn = type(n).__name__
+        if cn == "ReturnStmt":
+            raise _Ret(eval(str(n.expr), {"__builtins__": {}}, env) if n.expr is not None else None)
+        if isinstance(env, _Scope) and cn in ("VarAssign", "VarDecl"):
+            env.store(n.name, n.expr if isinstance(n.expr, (int, float)) else eval(str(n.expr), {"__builtins__": {}}, env), cn == "VarDecl")
+            continue
+        c03._ir_exec([n], env, budget)
+
+
+def _bind_functions(prog, env):
+    """IR functions become callables of the interpretation environment"""
+    for f in list(prog.functions):
+        def call(*args, _f=f):
+            sc = _Scope(env, {n: a for (n, _t), a in zip(_f.params, args)})
+            try:
+                _exec_ir(list(_f.body), sc, [2000])
+            except _Ret as e:
+                return e.args[0]
+            return None
+        env[f.name] = call
+
+
+TUPLE_SCRIPTS = {
+    # label: (prologue, loop body, passes)
+    "swap": ("a = 1\nb = 2\n", "a, b = b, a\n", 3),
+    "rotate": ("a = 1\nb = 2\nc = 3\n", "a, b, c = b, c, a\n", 4),
+    "fibonacci": ("a = 0\nb = 1\n", "a, b = b, a + b\n", 6),
+    "dependent": ("count = 5\ndoubled = 0\n", "count, doubled = count + 1, count * 2\n", 3),
+    "new-locals-from-globals": ("a = 4\nb = 9\n", "p, q = b, a\na, b = q + 1, p + 1\n", 2),
+    "two-reads": ("lo = 0\nhi = 0\n", "lo, hi = pot.read(), pot.read()\n", 2),
+    "read-and-old-value": ("a = 7\nb = 0\n", "a, b = pot.read(), a\n", 3),
+    "same-expression-twice": ("a = 2\nx = 0\ny = 0\n", "x, y = a + 1, a + 1\na = x + y\n", 2),
+    "list-targets": ("a = 1\nb = 2\n", "[a, b] = [b, a + b]\n", 3),
+    "helper-reads-a-target": ("a = 1\nb = 0\ndef peek():\n    return a\n", "a, b = 50, peek()\n", 1),
+    "helper-reads-a-later-target": ("a = 1\nb = 2\ndef peek():\n    return b\n", "b, a = peek() + 5, peek()\n", 2),
+}
 
 
 def tuple_rhs_once(r, pm):
-    """every right-hand side of a tuple assignment is evaluated exactly once (one temporary per position)"""
-    from ..flow import CallCount
-    ha = pm.func("_handle_assignment_ast")
-    tup = [n for n in walk_local(ha) if isinstance(n, ast.If) and norm(n.test) == "isinstance(target, (ast.Tuple, ast.List))"]
-    if len(tup) != 1:
-        raise AnalysisError("tuple-assignment branch not found")
-    tb = tup[0]
-    # every right-hand side is evaluated exactly once: each pass of the loop over the right-hand sides creates one temporary
-    rl = [n for n in walk_local(tb) if isinstance(n, ast.For) and "right_data" in norm(n.iter) and any(isinstance(c, ast.Call) and norm(c.func) == "tmp_nodes.append" for c in ast.walk(n))]
-    if len(rl) != 1:
-        raise AnalysisError("tuple assignment: the loop creating the temporaries was not recognised")
-    cc = CallCount(lambda c: norm(c.func) == "tmp_nodes.append")
-    o = cc.block(rl[0].body, (0, 0))
-    ends = [x for x in (o.fall, o.cont) if x is not None]
-    r.check(bool(ends) and all(e == (1, 1) for e in ends) and o.brk is None, "tuple/one-temporary-per-right-hand-side", (pm, rl[0]), f"temporaries created per right-hand side on the paths through the loop: {ends}{' (or the loop stops early)' if o.brk is not None else ''}; `lo, hi = pot.read(), pot.read()` must evaluate (read) twice, as Python does")
+    """tuple assignment decided by evaluation: the statement parser is partially evaluated on scripts whose main loop holds
+    tuple assignments (swap, rotation, dependent right-hand sides, sensor reads written twice); the loop IR is interpreted
+    over integers for several passes, reads served by a scripted source, and must leave the values - and perform the number of
+    reads - of Python's own execution of the same statements"""
+    pf = pm.func("parse")
+    for label, (pro, body, passes) in TUPLE_SCRIPTS.items():
+        uses_pot = "pot." in body
+        src = ("from Reduino.Sensors import Potentiometer\npot = Potentiometer('A0')\n" if uses_pot else "") + pro + "while True:\n" + "".join("    " + l + "\n" for l in body.splitlines())
+        try:
+            _it, out = pe.parse_source(src)
+        except dl.Unsupported as e:
+            raise AnalysisError(f"parse() left the evaluable subset on tuple script `{label}`: {e}")
+        if out.kind != "return":
+            r.fail(f"tuple[{label}]/accepted", (pm, pf), f"the script `{label}` is rejected with {out.value}")
+            continue
+        prog = out.value
+        py_src = _Reads()
+        want = {}
+        genv = {"__builtins__": {}, "pot": py_src}
+        exec(compile(pro, f"<tuple {label}>", "exec"), genv)
+        code = compile(body, f"<tuple {label} loop>", "exec")
+        for _ in range(passes):
+            exec(code, genv)
+        want = {k: v for k, v in genv.items() if isinstance(v, (int, float)) and not isinstance(v, bool)}
+        ir_src = _Reads()
+        env = {"analogRead": ir_src.read, "A0": 0}
+        why = ""
+        try:
+            for d in list(prog.global_decls):
+                env[d.name] = d.expr if isinstance(d.expr, (int, float)) else eval(str(d.expr), {"__builtins__": {}}, dict(env))
+            _bind_functions(prog, env)
+            _exec_ir([n for n in prog.setup_body if type(n).__name__ in ("VarAssign", "VarDecl", "IfStatement", "WhileLoop", "ForRangeLoop")], env, [10000])
+            for _ in range(passes):
+                _exec_ir(list(prog.loop_body), env, [10000])
+            got = {k: env.get(k) for k in want}
+        except (NameError, SyntaxError, TypeError, ZeroDivisionError) as e:
+            got, why = None, f" ({type(e).__name__}: {e})"
+        r.check(got == want, f"tuple[{label}]/values=python", (pm, pf), f"`{body.strip()}` x{passes}: Python leaves {want}; the loop IR leaves {got}{why}: every right-hand side must be bound before any target is written", sample=f"{label}: {want}")
+        if uses_pot:
+            r.check(ir_src.n == py_src.n, f"tuple[{label}]/one-read-per-right-hand-side", (pm, pf), f"`{body.strip()}` x{passes}: Python reads the sensor {py_src.n} times; the loop IR reads {ir_src.n} times")
+    # inside a function body
+    src = "def f(x):\n    p, q = x, x + 1\n    p, q = q, p\n    return p - q\nwhile True:\n    u = f(3)\n"
+    _it, out = pe.parse_source(src)
+    if out.kind != "return":
+        r.fail("tuple[function]/accepted", (pm, pf), f"tuple assignment inside a function is rejected with {out.value}")
+        return
+    fns = [f for f in out.value.functions if f.name == "f"]
+    got = None
+    if fns:
+        env = {n: 3 for n, _t in fns[0].params}
+        try:
+            _exec_ir(list(fns[0].body), env, [1000])
+        except _Ret as e:
+            got = e.args[0]
+        except (NameError, SyntaxError, TypeError) as e:
+            got = f"{type(e).__name__}: {e}"
+    r.check(got == 1, "tuple[function]/values=python", (pm, pf), f"`p, q = x, x + 1; p, q = q, p; return p - q` with x=3 returns 1 in Python; the function IR returns {got}")
 
 
 def run(cx):
@@ -501,29 +532,8 @@ def run(cx):
                     r.fail(f"{q}/for-{call_name(n.iter)}[{norm(n.iter.args[0])}]", (m, n), "statements are visited out of source order")
 
     # ---- C01-SWAP ----------------------------------------------------------------------------
-    r = cx.rule("C01-SWAP", "tuple assignment is two-phase: every right-hand side is bound to a fresh temporary before any target is written (except when all targets are new globals)", floor=3)
-    ha = pm.func("_handle_assignment_ast")
-    tup = [n for n in walk_local(ha) if isinstance(n, ast.If) and norm(n.test) == "isinstance(target, (ast.Tuple, ast.List))"]
-    if len(tup) != 1:
-        raise AnalysisError("tuple-assignment branch not found")
-    tb = tup[0]
-    for c in walk_local(tb):
-        if isinstance(c, ast.Call) and call_name(c) in ("VarAssign", "VarDecl"):
-            nm = kwarg(c, "name")
-            ex = kwarg(c, "expr")
-            if nm is None or ex is None:
-                continue
-            cs = lexical_conds(pm, c)
-            if norm(nm) == "tmp_name":
-                r.check(norm(ex) == "expr_c", "tuple/temporaries-hold-the-right-hand-sides", (pm, c), f"temporary initialised with `{norm(ex)}`")
-                continue
-            if ("all_new and is_global_scope", True) in cs:
-                r.ok("all-new globals: no target can occur on the right-hand side")
-                continue
-            r.check(norm(ex) == "tmp_names[idx]", "tuple/targets-assigned-from-temporaries", (pm, c), f"`{stmt_key(c)}` under {sorted(cs)}: a target is written directly from a right-hand side; `count, doubled = count + 1, count * 2` would read the already updated count")
+    r = cx.rule("C01-SWAP", "tuple assignment is two-phase: scripts with swaps, rotations, dependent right-hand sides and repeated sensor reads in the main loop and in a function are partially evaluated and their IR interpreted over integers; values and number of reads equal Python's", floor=9, exhaustive=True)
     tuple_rhs_once(r, pm)
-    ext = [n for n in walk_local(tb) if isinstance(n, ast.Expr) and norm(n.value) == "nodes.extend(tmp_nodes)"]
-    r.check(len(ext) == 1, "tuple/temporaries-emitted-first", (pm, tb), "the temporaries must be emitted before the target assignments")
 
     # ---- C01-LIST ----------------------------------------------------------------------------
     rule_list_helpers(cx, "C01-LIST")
